@@ -595,6 +595,13 @@ func gen(r *lib.Rand, tier string, emit func(string)) {
 		j3 := append([]byte{}, jumboHeader...)
 		copy(j3[44:], []byte{0, 0, 0xff, 0xff}) // jumbo length ≤ 65535
 		g.emit("lip6 dec ip6 0 - " + lib.Hex(j3) + "+pat:7:100")
+		// jumbogram over a hop-by-hop header that already holds a (malformed) jumbo option
+		for _, o := range []string{"194:2:4:0000:0:0", "194:0:2:-:0:0", "194:0:2:nil:0:0", "194:6:8:000000000000:4:2", "194:4:6:00010008:4:2", "5:2:4:0000:0:0|194:3:5:010203:0:0"} {
+			g.start()
+			for fc := 0; fc < 4; fc++ {
+				g.emit(fmt.Sprintf("lip6 ser ip6 %s fresh - 6 0 0 0 0 64 %s %s 59/0/%s pat:3:65536", fixcs(fc), lib.Hex(src6), lib.Hex(dst6), o))
+			}
+		}
 		nj := 6
 		if thorough {
 			nj = 40
